@@ -136,6 +136,9 @@ type verifSearchStream struct {
 
 func (s *verifSearchStream) Recv() (*pb.SearchResultItem, error) {
 	if s.failAt >= 0 && s.at == s.failAt {
+		if s.recvErr != nil {
+			return nil, s.recvErr
+		}
 		return nil, errVerifRemote
 	}
 	if s.at >= len(s.items) {
@@ -150,6 +153,7 @@ type verifSearchClient struct {
 	node     uint64
 	requests []*pb.SearchPartitionsRequest
 	openFail bool
+	recvErr  error // what a failing Recv returns (nil: a plain error)
 	// answer for a request is produced by this function
 	answer func(req *pb.SearchPartitionsRequest) ([]*pb.SearchResultItem, int)
 }
@@ -166,7 +170,7 @@ func (c *verifSearchClient) SearchPartitions(ctx context.Context, in *pb.SearchP
 		return nil, errVerifRemote
 	}
 	items, failAt := c.answer(in)
-	return &verifSearchStream{items: items, failAt: failAt}, nil
+	return &verifSearchStream{items: items, failAt: failAt, recvErr: c.recvErr}, nil
 }
 
 // datasets -----------------------------------------------------------------
